@@ -186,30 +186,213 @@ def return_rule(ctx, repo):
             else:
                 ctx.ok({'variable': n.targets[0].id, 'from': 'snapshot.' + attr})
 
-def _py_next_int_sites(repo):
-    sites = []
-    for modname in ('trace', 'loadtracer', 'kbtracer', 'rzxplay', 'simulator', 'skoolmacro', 'tap2sna'):
-        mod = repo.mod(modname)
-        for n in ast.walk(mod.tree):
-            if isinstance(n, ast.Assign) and len(n.targets) == 1:
-                src = ast.unparse(n.value)
-                tgt = ast.unparse(n.targets[0])
-                if ('int_active' in src or tgt in ('next_int', 'state[8]')) and '//' in src and 'frame_duration' in src and '*' in src:
-                    sites.append((mod, n))
-    return sites
+class _Unknown(Exception):
+    pass
 
-class _Sub(ast.NodeTransformer):
-    """Replace every leaf by fd / ia / T according to its name."""
-    def leaf(self, node):
-        s = ast.unparse(node)
-        if s.endswith('frame_duration'):
-            return ast.copy_location(ast.Name(id='fd', ctx=ast.Load()), node)
-        if s.endswith('int_active'):
-            return ast.copy_location(ast.Name(id='ia', ctx=ast.Load()), node)
-        return ast.copy_location(ast.Name(id='T', ctx=ast.Load()), node)
-    def visit_Name(self, node): return self.leaf(node)
-    def visit_Attribute(self, node): return self.leaf(node)
-    def visit_Subscript(self, node): return self.leaf(node)
+_TEXT = {}
+def _text(node):
+    t = _TEXT.get(id(node))
+    if t is None:
+        t = _TEXT[id(node)] = (node, ast.unparse(node))
+    return t[1]
+
+NEXT_INT_VARS = ('next_int', 'state[8]')
+_CLOCK = ('registers[25]', 'registers[T]')
+
+class _NextIntFold:
+    """Forward fold of one function on a concrete (T, frame, int) sample: names bound to arithmetic over the clock, the
+    frame length and the interrupt length are tracked, everything else is unknown.  Each time a next-interrupt variable
+    has been (re)defined and the definition is complete (the next statement neither adjusts it nor sets the clock), its
+    value is compared with the definition: the first frame start m with m + int > clock.
+    Calls are assumed not to move the clock (values read before and after a call are equal in the model): that can hide a
+    stale read across a call but can never make a correct definition look wrong; explicit stores to the clock slot with
+    an unknown value bind a fresh clock value, so a definition computed before such a store is compared with the new clock."""
+    def __init__(self, T, fd, ia):
+        self.T0, self.fd, self.ia = T, fd, ia
+        self.k = 0
+        self.results = []       # (lineno, got, clock)
+
+    def fresh(self):
+        self.k += 1
+        return self.T0 + self.k * 100003
+
+    def leaf(self, text, env):
+        if text in env:
+            return env[text]
+        if text.endswith('frame_duration'):
+            return self.fd
+        if text.endswith('int_active'):
+            return self.ia
+        if text.endswith(_CLOCK):
+            return env['$clock']
+        raise _Unknown(text)
+
+    def ev(self, e, env):
+        if isinstance(e, ast.Constant) and isinstance(e.value, int):
+            return int(e.value)
+        if isinstance(e, (ast.Name, ast.Attribute, ast.Subscript)):
+            return self.leaf(_text(e), env)
+        if isinstance(e, ast.BinOp):
+            a, b = self.ev(e.left, env), self.ev(e.right, env)
+            f = pyfacts._BIN.get(type(e.op))
+            if f is None or (isinstance(e.op, (ast.FloorDiv, ast.Mod)) and b == 0):
+                raise _Unknown('op')
+            return f(a, b)
+        if isinstance(e, ast.UnaryOp) and isinstance(e.op, ast.Not):
+            return int(not self.ev(e.operand, env))
+        if isinstance(e, ast.UnaryOp) and isinstance(e.op, ast.USub):
+            return -self.ev(e.operand, env)
+        if isinstance(e, ast.Compare):
+            left = self.ev(e.left, env)
+            for op, c in zip(e.ops, e.comparators):
+                right = self.ev(c, env)
+                f = pyfacts._CMP.get(type(op))
+                if f is None or isinstance(op, (ast.In, ast.NotIn, ast.Is, ast.IsNot)):
+                    raise _Unknown('cmp')
+                if not f(left, right):
+                    return 0
+                left = right
+            return 1
+        if isinstance(e, ast.BoolOp):
+            vals = [self.ev(v, env) for v in e.values]
+            return int(all(vals)) if isinstance(e.op, ast.And) else int(any(vals))
+        if isinstance(e, ast.IfExp):
+            return self.ev(e.body, env) if self.ev(e.test, env) else self.ev(e.orelse, env)
+        raise _Unknown(type(e).__name__)
+
+    _W = {}
+    @classmethod
+    def written(cls, stmts):
+        key = tuple(id(x) for x in stmts)
+        if key not in cls._W:
+            cls._W[key] = (list(stmts), cls._written(stmts))
+        return cls._W[key][1]
+
+    @staticmethod
+    def _written(stmts):
+        out = set()
+        for st in stmts:
+            for n in ast.walk(st):
+                tgs = n.targets if isinstance(n, ast.Assign) else [n.target] if isinstance(n, (ast.AugAssign, ast.For)) else []
+                for tg in tgs:
+                    for t in (tg.elts if isinstance(tg, ast.Tuple) else [tg]):
+                        out.add(_text(t))
+        return out
+
+    def kill(self, env, names):
+        for nm in names:
+            if nm.endswith(_CLOCK):
+                env['$clock'] = self.fresh()
+            elif nm in NEXT_INT_VARS:
+                env.pop(nm, None)
+                env.pop('$pending:' + nm, None)
+            else:
+                env.pop(nm, None)
+
+    def assign(self, tg, v, env, line):
+        for t in (tg.elts if isinstance(tg, ast.Tuple) else [tg]):
+            text = _text(t)
+            if isinstance(tg, ast.Tuple):
+                self.kill(env, [text])
+                continue
+            if text.endswith(_CLOCK):
+                env['$clock'] = self.fresh() if v is None else v
+            elif v is None:
+                self.kill(env, [text])
+            else:
+                env[text] = v
+                if text in NEXT_INT_VARS:
+                    env['$pending:' + text] = line
+
+    def touches(self, st):
+        """Does this statement adjust a next-interrupt variable or set the clock (part of the same definition)?"""
+        if isinstance(st, (ast.Assign, ast.AugAssign, ast.If)) and not any(isinstance(x, (ast.While, ast.For, ast.Call)) for x in ast.walk(st)):
+            w = self.written([st])
+            return any(x in NEXT_INT_VARS or x.endswith(_CLOCK) for x in w)
+        return False
+
+    def check(self, env):
+        for var in NEXT_INT_VARS:
+            line = env.pop('$pending:' + var, None)
+            if line is not None and var in env:
+                self.results.append((line, env[var], env['$clock']))
+
+    def block(self, stmts, env):
+        for i, st in enumerate(stmts):
+            self.stmt(st, env)
+            if any(k.startswith('$pending:') for k in env):
+                if i + 1 < len(stmts) and self.touches(stmts[i + 1]):
+                    continue
+                self.check(env)
+        return env
+
+    def stmt(self, st, env):
+        if isinstance(st, ast.Assign):
+            try:
+                v = self.ev(st.value, env)
+            except _Unknown:
+                v = None
+            for tg in st.targets:
+                self.assign(tg, v, env, st.lineno)
+        elif isinstance(st, ast.AugAssign):
+            try:
+                if not hasattr(st, '_sa_binop'):
+                    st._sa_binop = ast.BinOp(left=st.target, op=st.op, right=st.value)
+                v = self.ev(st._sa_binop, env)
+            except _Unknown:
+                v = None
+            self.assign(st.target, v, env, st.lineno)
+        elif isinstance(st, ast.If):
+            try:
+                t = self.ev(st.test, env)
+            except _Unknown:
+                t = None
+            if t is not None:
+                self.block(st.body if t else st.orelse, env)
+            else:
+                a = self.block(st.body, dict(env))
+                b = self.block(st.orelse, dict(env))
+                # definitions completed inside a branch have been checked there; keep only what both branches agree on
+                for k in list(env):
+                    env.pop(k)
+                for k in a:
+                    if k in b and a[k] == b[k] and not k.startswith('$pending:'):
+                        env[k] = a[k]
+                if '$clock' not in env:
+                    env['$clock'] = self.fresh()
+        elif isinstance(st, (ast.While, ast.For)):
+            self.kill(env, self.written([st]))
+            inner = dict(env)
+            self.block(st.body, inner)
+            self.kill(env, self.written([st]))
+        elif isinstance(st, (ast.With, ast.Try)):
+            body = st.body
+            self.block(body, env)
+            if isinstance(st, ast.Try):
+                self.kill(env, self.written(st.handlers + st.orelse + st.finalbody))
+        elif isinstance(st, (ast.FunctionDef, ast.Lambda)):
+            return
+        # return / break / continue / pass / others: no effect on the tracked names
+
+def _py_next_int_functions(repo):
+    """(module, function node) for every function (nested ones separately) that defines a next-interrupt variable."""
+    out = []
+    for modname in ('trace', 'loadtracer', 'kbtracer', 'rzxplay', 'simulator', 'cmiosimulator', 'skoolmacro', 'tap2sna'):
+        mod = repo.mod(modname)
+        for fn in ast.walk(mod.tree):
+            if not isinstance(fn, ast.FunctionDef):
+                continue
+            own = []
+            def collect(n):
+                for c in ast.iter_child_nodes(n):
+                    if isinstance(c, (ast.FunctionDef, ast.Lambda)):
+                        continue
+                    own.append(c)
+                    collect(c)
+            collect(fn)
+            if any(isinstance(n, ast.Assign) and any(ast.unparse(t) in NEXT_INT_VARS for t in n.targets) for n in own):
+                out.append((mod, fn))
+    return out
 
 def _c_eval(n, T, fd, ia):
     n = cfacts.strip(n)
@@ -250,39 +433,52 @@ def next_int_rule(ctx, repo):
                 if base + d >= 0:
                     ts.add(base + d)
         samples.append((fd, ia, sorted(ts)))
-    sites = _py_next_int_sites(repo)
-    for mod, n in sites:
-        expr = _Sub().visit(ast.parse(ast.unparse(n.value), mode='eval').body)
-        ast.fix_missing_locations(expr)
-        f = tabulate._py(expr, None)
-        bad = None
+    funcs = _py_next_int_functions(repo)
+    n_sites = 0
+    for mod, fn in funcs:
+        seen = {}      # line -> first counterexample or None
         for fd, ia, ts in samples:
             for T in ts:
-                got = f({'T': T, 'fd': fd, 'ia': ia})
-                if got != ref(T, fd, ia):
-                    bad = (T, fd, ia, got, ref(T, fd, ia))
-                    break
+                f = _NextIntFold(T, fd, ia)
+                f.block(fn.body, {'$clock': T})
+                for line, got, clock in f.results:
+                    want = ref(clock, fd, ia)
+                    if got != want and seen.get(line) is None:
+                        seen[line] = (clock, fd, ia, got, want)
+                    else:
+                        seen.setdefault(line, None)
+        for line, bad in sorted(seen.items()):
+            n_sites += 1
+            where = '%s:%d' % (mod.relpath, line)
             if bad:
-                break
-        where = '%s:%d' % (mod.relpath, n.lineno)
-        if bad:
-            ctx.violation('next_int %s' % where, where, 'next interrupt time `%s` gives %d at T=%d (frame %d, int %d); the other sites and the definition give %d: an interrupt is skipped or repeated after a resume' %
-                          (ast.unparse(n.value)[:90], bad[3], bad[0], bad[1], bad[2], bad[4]))
-        else:
-            ctx.ok({'site': where, 'expr': ast.unparse(n.value)[:80]})
-    # Simulator.run: if T < frame_start + int_active: next_int = frame_start else frame_start + frame_duration
-    run = repo.mod('simulator').method('Simulator', 'run')
-    src = ast.unparse(run)
-    want = ['frame_start = registers[25] // frame_duration * frame_duration', 'if registers[25] < frame_start + int_active:', 'next_int = frame_start', 'next_int = frame_start + frame_duration']
-    if all(w in src for w in want):
-        ctx.ok({'site': 'Simulator.run', 'form': 'frame_start if T < frame_start + int_active else frame_start + frame_duration'})
-    else:
-        ctx.violation('next_int Simulator.run', 'skoolkit/simulator.py:%d' % run.lineno, 'Simulator.run no longer initialises next_int as the first frame start m with m + int_active > T')
+                ctx.violation('next_int %s %s' % (mod.name, fn.name), where, 'the next interrupt time defined in %s.%s (line %d) is %d when the clock is %d (frame %d, int %d); the definition - first frame start m with m + int > clock - gives %d: an interrupt is skipped or repeated after a resume' %
+                              (mod.name, fn.name, line, bad[3], bad[0], bad[1], bad[2], bad[4]))
+            else:
+                ctx.ok({'site': where, 'function': '%s.%s' % (mod.name, fn.name)})
+        if not seen:
+            ctx.limit('next_int %s.%s' % (mod.name, fn.name), 'the definition of the next interrupt time in this function could not be folded (depends on values other than clock, frame and interrupt length)')
     # C sites: self->tracer_state[8] = ...
     from sa.core import cfacts as cf
     facts = cf.load(repo.root)
     u = cf.CUnit(facts['plain'])
     csites = []
+    cblocks = {}     # id(site) -> (compound statement children, index of the site)
+    def is_clock_store(x):
+        x = cf.strip(x)
+        if x.get('kind') in ('BinaryOperator', 'CompoundAssignOperator') and x.get('opcode', '=').endswith('='):
+            lhs = cf.strip(x['inner'][0])
+            if lhs.get('kind') == 'ArraySubscriptExpr':
+                b = cf.strip(lhs['inner'][0]); i = cf.strip(lhs['inner'][1])
+                return b.get('kind') == 'DeclRefExpr' and b.get('ref') == 'reg' and _c_const(i) == 25
+        return False
+    def _c_const(i):
+        if i.get('kind') == 'IntegerLiteral':
+            return int(i['value'])
+        if i.get('kind') == 'DeclRefExpr' and i.get('ref') == 'T':
+            return 25
+        if i.get('kind') == 'ConstantExpr' and i.get('value') is not None:
+            return int(i['value'])
+        return None
     def scan(n, fname):
         if n.get('kind') == 'BinaryOperator' and n.get('opcode') == '=':
             lhs = cf.strip(n['inner'][0])
@@ -290,7 +486,11 @@ def next_int_rule(ctx, repo):
                 b = cf.strip(lhs['inner'][0]); i = cf.strip(lhs['inner'][1])
                 if b.get('kind') == 'MemberExpr' and b.get('name') == 'tracer_state' and i.get('kind') == 'IntegerLiteral' and i['value'] == '8':
                     csites.append((fname, n))
-        for c in n.get('inner', []):
+        kids = n.get('inner', [])
+        for k, c in enumerate(kids):
+            if n.get('kind') == 'CompoundStmt' and cf.strip(c) is not None:
+                cblocks[id(cf.strip(c))] = (kids, k)
+                cblocks[id(c)] = (kids, k)
             scan(c, fname)
     for name, fn in u.funcs.items():
         scan(fn, name)
@@ -305,12 +505,28 @@ def next_int_rule(ctx, repo):
             if bad:
                 break
         where = 'c/csimulator.c:%d (%s)' % (n.get('line', 0), fname)
+        late = None
+        def reads_clock(x):
+            x = cf.strip(x)
+            if x.get('kind') == 'ArraySubscriptExpr':
+                b = cf.strip(x['inner'][0]); i = cf.strip(x['inner'][1])
+                if b.get('kind') == 'DeclRefExpr' and b.get('ref') == 'reg' and _c_const(i) == 25:
+                    return True
+            return any(reads_clock(c) for c in x.get('inner', []))
+        if id(n) in cblocks and reads_clock(n['inner'][1]):
+            kids, k = cblocks[id(n)]
+            for c in kids[k + 1:]:
+                if is_clock_store(c):
+                    late = c
+                    break
         if bad:
-            ctx.violation('next_int C %s line %d' % (fname, n.get('line', 0)), where, 'next interrupt time gives %d at T=%d (frame %d, int %d); expected %d' % (bad[3], bad[0], bad[1], bad[2], bad[4]))
+            ctx.violation('next_int C %s' % fname, where, 'next interrupt time gives %d at T=%d (frame %d, int %d); expected %d' % (bad[3], bad[0], bad[1], bad[2], bad[4]))
+        elif late is not None:
+            ctx.violation('next_int C %s clock order' % fname, where, 'the next interrupt time is computed from the clock at line %d, then the clock is set at line %d in the same block: the interrupt schedule belongs to the old clock (the Python tracer sets the clock first)' % (n.get('line', 0), late.get('line', 0)))
         else:
-            ctx.ok({'site': where})
-    if len(sites) < 4 or len(csites) < 3:
-        raise FactError('expected at least 4 Python and 3 C next-interrupt sites, found %d / %d' % (len(sites), len(csites)))
+            ctx.ok({'site': where, 'clock stores after it in its block': 0})
+    if n_sites < 4 or len(csites) < 3:
+        raise FactError('expected at least 4 Python and 3 C next-interrupt sites, found %d / %d' % (n_sites, len(csites)))
 
 def run(ctx):
     repo = pyfacts.Repo(ctx.repo_root)
